@@ -1,8 +1,146 @@
-/- Driver for C02 (stub). -/
-import ControlModel.Basic
+/-
+  Driver for C02: line = "scenario<TAB>implObs"; see harness/props/c02/run.go for both formats.
+
+  Three things the environment decides, not the input, are inferred from what the implementation did
+  (the model is evaluated for each choice and the first one that reproduces the observation is printed):
+    * lossy — when a MESSAGE call of a command failed (`undeliv`), the core's scheduler client drops its
+      subscription, so replies of the other targets that had not arrived yet are lost: those targets then
+      behave as `silent` (every such assignment is covered by the theorems, which quantify over all outcomes);
+    * early — TASK_RUNNING updates that overtake the roster (`Launch.okEarly`); only considered when the harness
+      attests that every task was running and acknowledged by the core well before DEPLOY gave up (`running-acked`);
+    * watcherFirst — see `Trans.controlRpc`; only possible when a critical target went to ERROR / died in a
+      command that some target keeps waiting for its time-out.
+-/
+import ControlModel.Model.Transition
+import ControlModel.Spec.C02
 
 namespace Driver.C02
+open Trans EnvM
 
-def processLine (_line : String) : String := "UNIMPLEMENTED\t0\t-"
+def parseOutcome : SExp → Option Outcome
+  | .atom "ok" => some .ok
+  | .atom "-" => some .ok
+  | .atom "stay" => some .errorReplyStaySrc
+  | .atom "err" => some .errorReplyToError
+  | .atom "undeliv" => some .undeliverable
+  | .atom "silent" => some .silent
+  | .atom "dies" => some .dies
+  | _ => none
+
+def parseLaunch : SExp → Option Launch
+  | .atom "ok" => some .ok
+  | .atom "dies" => some .dies
+  | .atom "silent" => some .silent
+  | .atom "nohost" => some .nohost
+  | _ => none
+
+def parseTask : SExp → Option (Bool × Launch)
+  | .list [c, .atom _mode, .atom _host, l] => do pure ((← c.bool?), (← parseLaunch l))
+  | _ => none
+
+def parseStep (n : Nat) : SExp → Option SStep
+  | .list (.atom "DIE" :: outs) => do
+    if outs.length ≠ n then none else pure (.die (← outs.mapM? parseOutcome))
+  | .list (.atom e :: outs) => do
+    if outs.length ≠ n then none else pure (.ctl (← Ev.parse? e) (← outs.mapM? parseOutcome) false)
+  | _ => none
+
+def parseScenario (x : SExp) : Option (Cfg × Scenario) :=
+  let go (cfg : Cfg) : List SExp → Option (Cfg × Scenario)
+    | .list (.atom "wf" :: calls :: tasks) :: steps => do
+      let ts ← tasks.mapM? parseTask
+      let wf : Workflow := { calls := ← calls.nat?, tasks := ts }
+      let ss ← steps.mapM? (parseStep ts.length)
+      match ss with
+      | [] => pure (cfg, { wf := wf, configure := [], steps := [] })
+      | .ctl .CONFIGURE outs _ :: rest => pure (cfg, { wf := wf, configure := outs, steps := rest })
+      | _ => none
+    | _ => none
+  match x with
+  | .list (.atom "fixed" :: rest) => go Cfg.fixed rest
+  | .list rest => go Cfg.code rest
+  | _ => none
+
+def rpcName : Rpc → String
+  | .ok => "ok" | .err => "err" | .hang => "hang"
+
+def obsSx (o : Obs) : SExp :=
+  let st := SExp.atom (match o.state with | some s => s.name | none => "-")
+  let af := SExp.atom (match o.after with | some s => s.name | none => "gone")
+  let cmd := SExp.list (o.cmd.map SExp.ofNat)
+  match o.ev with
+  | none => .list ([.atom "new", .atom (rpcName o.rpc), st, af, cmd] ++ (if o.runningAcked then [.atom "running-acked"] else []))
+  | some e => .list [.atom "ctl", .atom e.name, .atom (rpcName o.rpc), st, af, cmd]
+
+def parseRpc : String → Option Rpc
+  | "ok" => some .ok | "err" => some .err | "hang" => some .hang | _ => none
+
+def parseSt (s : String) : Option (Option St) :=
+  if s == "-" || s == "gone" then some none else (St.parse? s).map some
+
+def parseObs : SExp → Option Obs
+  | .list [.atom "new", .atom r, .atom s, .atom a, .list cmd] => do
+    pure { ev := none, rpc := ← parseRpc r, state := ← parseSt s, after := ← parseSt a, cmd := ← cmd.mapM? SExp.nat? }
+  | .list [.atom "new", .atom r, .atom s, .atom a, .list cmd, .atom "running-acked"] => do
+    pure { ev := none, rpc := ← parseRpc r, state := ← parseSt s, after := ← parseSt a, cmd := ← cmd.mapM? SExp.nat?,
+           runningAcked := true }
+  | .list [.atom "ctl", .atom e, .atom r, .atom s, .atom a, .list cmd] => do
+    pure { ev := some (← Ev.parse? e), rpc := ← parseRpc r, state := ← parseSt s, after := ← parseSt a,
+           cmd := ← cmd.mapM? SExp.nat? }
+  | _ => none
+
+/-- Replies lost with the subscription: in a command with an undeliverable target, the targets that would have
+    answered count as silent. -/
+def lose (outs : List Outcome) : List Outcome :=
+  if outs.any (· = .undeliverable) then
+    outs.map (fun o => if o = .ok ∨ o = .errorReplyStaySrc ∨ o = .errorReplyToError then .silent else o)
+  else outs
+
+/-- The watcher can only get in first if a critical commanded task went to ERROR (error reply with state ERROR,
+    or death) while the command as a whole waits for somebody's time-out. -/
+def watcherPossible (ts : List Target) : Bool :=
+  ts.any (fun t => t.1 && (t.2 = .errorReplyToError || t.2 = .dies)) &&
+  ts.any (fun t => t.2 = .silent || t.2 = .dies)
+
+def gate (w : Bool) (tasks : List Task) : List SStep → List SStep
+  | [] => []
+  | .die outs :: rest => .die outs :: gate w (afterCommand tasks outs) rest
+  | .ctl e outs _ :: rest =>
+    .ctl e outs (w && watcherPossible (targets (pair tasks outs))) :: gate w (afterCommand tasks outs) rest
+
+/-- The harness cannot tell which updates overtook the roster: all of them, in the variant. -/
+def early (wf : Workflow) : Workflow :=
+  { wf with tasks := wf.tasks.map (fun t => if t.2 = .ok then (t.1, .okEarly) else t) }
+
+def variant (sc : Scenario) (lossy w : Bool) : Scenario :=
+  let conf := if lossy then lose sc.configure else sc.configure
+  let steps := if lossy then sc.steps.map (fun s => match s with
+      | .ctl e outs f => .ctl e (lose outs) f
+      | s => s) else sc.steps
+  let tasks : List Task := sc.wf.tasks.map (fun t => { critical := t.1, active := t.2 = .ok })
+  { sc with configure := conf, steps := gate w (afterCommand tasks conf) steps }
+
+def showObs (os : List Obs) : String := toString (SExp.list (os.map obsSx))
+
+def processLine (line : String) : String :=
+  match SExp.fields line with
+  | [inp, impl] =>
+    match (SExp.parse inp).bind parseScenario with
+    | some (cfg, sc) =>
+      let cands := [(false, false), (false, true), (true, false), (true, true)].map (fun (l, w) => variant sc l w)
+        ++ [{ sc with wf := early sc.wf }]
+      let outs := cands.map (fun c => (c, showObs (run cfg c)))
+      let chosen := (outs.find? (fun p => p.2 == impl)).getD (variant sc false false, showObs (run cfg (variant sc false false)))
+      let implObs : Option (List Obs) := do (← (← SExp.parse impl).list?).mapM? parseObs
+      let (spec, hyp) :=
+        match implObs with
+        | none => (false, "-")
+        | some os =>
+          match judge chosen.1 os with
+          | none => (true, "-")
+          | some h => (false, h)
+      s!"{chosen.2}\t{if spec then 1 else 0}\t{hyp}"
+    | none => "BADINPUT\t0\t-"
+  | _ => "BADLINE\t0\t-"
 
 end Driver.C02
